@@ -59,6 +59,24 @@ def sharedHistory : List Op :=
    .retry (.advance 1), .retry .pollFetch, .retry .pollMark, .retry .pollEnq, .retry (.take .ret),
    .exec 1 true]                      -- task 1 retried: file missing, dropped
 
+/-- Witness 3: even an *unsplit* forced cleanup that runs while a commit is between its flag and its
+Add breaks the invariant — it deletes flag and file ("leaked file"); when the blob comes back into the
+cache (a retried or concurrent upload, an internal transfer) before the commit's metainfo step, the
+commit is acknowledged for a file without persist flag.  The design's "near miss saved because
+Generate fails" is not always saved. -/
+def unsplitHistory : List Op :=
+  [.upload 0 0, .wbStep 0,            -- commit: file in cache, flag set, Add not yet called
+   .fcAtomic 0 [],                    -- whole forced cleanup: flag, no task: clears the flag, deletes the file
+   .fetch 0,                          -- the blob is cached again (no flag)
+   .wbStep 0, .wbStep 0, .wbStep 0, .wbStep 0]   -- Add, send, metainfo OK, acknowledged
+
+theorem unsplit_cleanup_breaks_safe :
+    ¬ Safe id (run id cfg1 unsplitHistory) ∧ 0 ∈ (run id cfg1 unsplitHistory).acked ∧
+    0 ∉ (run id cfg1 unsplitHistory).persist ∧ 0 ∈ (run id cfg1 unsplitHistory).cache := by decide
+
+theorem unsplit_cleanup_then_deleted_loses_upload :
+    Lost (run id cfg1 (unsplitHistory ++ [.delete 0, .retry (.take .inc), .exec 0 true])) 0 := by decide
+
 theorem race_loses_upload : Lost (run id cfg1 raceHistory) 0 := by decide
 theorem shared_loses_upload : Lost (run (· / 2) cfg1 sharedHistory) 1 := by decide
 
